@@ -128,7 +128,7 @@ def old_cases(draw):
     else:
         src = {"kind": draw(st.sampled_from(["pil", "file"])), "image": draw(gen.still_image(max_w=6, max_h=6))}
     ident = draw(gen.identity())
-    if draw(st.booleans()):  # favour the identities whose quirks the style reacts to
+    if draw(st.integers(0, 3)) != 0:  # favour the identities whose quirks the style reacts to
         rel = {"kitty": [["kitty", "0.20.0"], ["kitty", "0.25.0"], ["kitty", "0.25.1"], ["kitty", "0.25.2"], ["kitty", "0.26.5"],
                          ["konsole", "22.04.0"]],
                "iterm2": [["wezterm", "20230712"], ["konsole", "22.04.0"], ["iterm2", "3.4.19"]],
@@ -143,7 +143,7 @@ def old_cases(draw):
         "h_align": draw(st.sampled_from([None, "<", "|", ">", "left", "center", "right"])),
         "v_align": draw(st.sampled_from([None, "^", "-", "_", "top", "middle", "bottom"])),
         "pad_width": draw(st.one_of(st.just(0), st.integers(-3, 26))),
-        "pad_height": draw(st.one_of(st.just(-2), st.integers(-3, 18))),
+        "pad_height": draw(st.one_of(st.just(-2), st.integers(-3, 18), st.integers(1, 4))),  # incl. heights below the image's
         "alpha": draw(gen.alpha_setting()),
         "scroll": draw(st.booleans()), "check_size": draw(st.booleans()),
         "animate": draw(st.integers(0, 5)) != 0, "repeat": draw(st.sampled_from([1, 1, 2, 3])),
@@ -152,6 +152,11 @@ def old_cases(draw):
         "cols": draw(st.integers(1, 24)), "rows": draw(st.integers(2, 16)),
         "r0f": draw(st.sampled_from([0.0, 0.0, 0.3, 0.8, 1.0, 1.0])),
         "bg": draw(st.one_of(st.none(), gen.rgb)),
+        # file sources: the same call was attempted before while the file was missing and the terminal had another size
+        "failed_first": draw(st.booleans()),
+        # who detects the terminal: the harness presets the detected state (None), or the library detects it itself on
+        # first use -- through the style class, or through a user subclass of it that is instantiated first
+        "detect": draw(st.sampled_from([None, None, "base", "subclass", "subclass"])),
     }
     if style == "kitty":
         c["style_args"] = draw(gen.kitty_style(allow_blend=False))
@@ -422,8 +427,14 @@ def check_old(c, rec):
 
     env.reset()
     cols, rows = c["cols"], c["rows"]
-    env.apply(cols=cols, rows=rows, cell=c["cell"], name=c["ident"][0], version=c["ident"][1], bg=c["bg"])
+    detect = c.get("detect") if c["style"] != "block" else None
+    env.apply(detect=bool(detect), cols=cols, rows=rows, cell=c["cell"], name=c["ident"][0], version=c["ident"][1], bg=c["bg"])
     cls = {"block": I.BlockImage, "kitty": I.KittyImage, "iterm2": I.ITerm2Image}[c["style"]]
+    if detect:
+        rec.label(f"detect:{detect}")
+        if detect == "subclass":
+            first = type(cls)("Sub" + cls.__name__, (cls,), {})(Image.new("RGB", (1, 1)))
+            first.close()
     src = c["source"]
     pil = None
     if src["kind"] == "pil":
@@ -492,6 +503,32 @@ def _check_old(c, rec, image, cls, InvalidSizeError, resolve_pad):
         image.set_size(sz[1], sz[2])
         what += f" (same instance formatted before at {c['prior_size']})"
         rec.label("prior_size")
+    if c.get("failed_first") and c["source"]["kind"] in ("file", "anim_file"):
+        import os
+
+        path = image.source
+        setting = image.size
+        env.apply(cols=cols + 9, rows=rows + 7)
+        os.rename(path, path + ".away")
+        real = sys.stdout
+        sys.stdout = Cap(c["tty"])
+        failed = None
+        try:
+            image.draw(c["h_align"], pw_raw, c["v_align"], ph_raw, c["alpha"], animate=c["animate"], repeat=c["repeat"],
+                       cached=c["cached"], scroll=c["scroll"], check_size=c["check_size"], **sa)
+        except Exception as e:
+            failed = e
+        finally:
+            sys.stdout = real
+            os.rename(path + ".away", path)
+            env.apply(cols=cols, rows=rows)
+        if failed is None:
+            raise Violation(f"{what}: draw() of an image whose source file is missing did not fail", {"clause": "missing_file"})
+        if image.size != setting or (isinstance(setting, I.Size) and image.size is not setting):
+            raise Violation(f"{what}: a draw() that failed with {type(failed).__name__} (source file missing, terminal "
+                            f"{cols + 9}x{rows + 7}) changed the size setting {setting!r} -> {image.size!r}", {"clause": "size_setting"})
+        what += f" (after a draw that failed with {type(failed).__name__})"
+        rec.label("after_failed_draw")
     size_before = image.size
     tell_before = image.tell()
     cap = Cap(c["tty"])
@@ -658,7 +695,7 @@ def check_pty(c, rec):
 CLAUSES = [
     Clause("new_api", check_new, new_cases, budget={"quick": 1500, "thorough": 40000},
            floors={"rejected": 0.05, "animation": 0.2, "scrolled": 0.03, "tty": 0.4}),
-    Clause("old_api", check_old, old_cases, budget={"quick": 1200, "thorough": 30000},
+    Clause("old_api", check_old, old_cases, budget={"quick": 2400, "thorough": 30000},
            floors={"rejected": 0.05, "animation": 0.1, "scrolled": 0.02, "style:kitty": 0.1, "style:iterm2": 0.1}),
     Clause("pty", check_pty, pty_cases, budget={"quick": 60, "thorough": 600}, min_per_shard=10),
 ]
